@@ -339,18 +339,22 @@ func (s *TemporalStore) Coalesce(predicate ast.PredicateSym) error {
 }
 
 // coalesceIntervals merges overlapping or adjacent intervals.
-// Intervals must have concrete timestamps (not variables or unbounded).
+// An unbounded start or end takes part in the merge like the smallest or
+// largest instant, and the merged interval keeps the unbounded bound.
+// Intervals with any other kind of bound (e.g. variables) are left alone.
 func coalesceIntervals(intervals []ast.Interval) []ast.Interval {
 	if len(intervals) <= 1 {
 		return intervals
 	}
 
-	// Separate concrete intervals from those with variables/unbounded
+	// Separate concrete intervals from those with variables
 	var concrete []ast.Interval
 	var other []ast.Interval
 
 	for _, i := range intervals {
-		if i.Start.Type == ast.TimestampBound && i.End.Type == ast.TimestampBound {
+		startOK := i.Start.Type == ast.TimestampBound || i.Start.Type == ast.NegativeInfinityBound
+		endOK := i.End.Type == ast.TimestampBound || i.End.Type == ast.PositiveInfinityBound
+		if startOK && endOK {
 			concrete = append(concrete, i)
 		} else {
 			other = append(other, i)
@@ -361,9 +365,13 @@ func coalesceIntervals(intervals []ast.Interval) []ast.Interval {
 		return append(concrete, other...)
 	}
 
-	// Sort by start time
-	sort.Slice(concrete, func(i, j int) bool {
-		return concrete[i].Start.Timestamp < concrete[j].Start.Timestamp
+	// Sort by start time, an unbounded start before an equal timestamp.
+	sort.SliceStable(concrete, func(i, j int) bool {
+		si, sj := GetStartTime(concrete[i]), GetStartTime(concrete[j])
+		if si != sj {
+			return si < sj
+		}
+		return concrete[i].Start.Type == ast.NegativeInfinityBound && concrete[j].Start.Type != ast.NegativeInfinityBound
 	})
 
 	// Merge overlapping/adjacent intervals
@@ -371,13 +379,14 @@ func coalesceIntervals(intervals []ast.Interval) []ast.Interval {
 	for i := 1; i < len(concrete); i++ {
 		last := &result[len(result)-1]
 		curr := concrete[i]
+		currStart, currEnd, lastEnd := GetStartTime(curr), GetEndTime(curr), GetEndTime(*last)
 
 		// Check if current overlaps or is adjacent to last
 		// Adjacent means end of last + 1 nanosecond = start of current
 		// (curr.Start - 1 would wrap around for the smallest timestamp.)
-		if curr.Start.Timestamp <= last.End.Timestamp || curr.Start.Timestamp-1 == last.End.Timestamp {
+		if currStart <= lastEnd || currStart-1 == lastEnd {
 			// Merge: extend the end if needed
-			if curr.End.Timestamp > last.End.Timestamp {
+			if currEnd > lastEnd || (currEnd == lastEnd && curr.End.Type == ast.PositiveInfinityBound) {
 				last.End = curr.End
 			}
 		} else {
